@@ -107,8 +107,12 @@ def cases(tier, seed):
                     for e in (-50, 40):  # whole-matrix scaling: every clause is relative to |lambda_max|
                         out.append({"key": f"{base}/scale=2^{e}", "grp": "herm", "n": n, "lam": [float(np.ldexp(x, e)) for x in lam], "ratio": ratio, "kind": kind,
                                     "start": ["seed", 1], "tol": 1e-10})
+    for n in range(2, 6):
+        for sk in ("ones_nondominant", "ek_nondominant", "path_laplacian", "circulant"):
+            for sd in range(min(S, 8)):
+                out.append({"key": f"structured/{sk}/n={n}/seed={sd}", "grp": "herm", "n": n, "lam": None, "ratio": None, "kind": sk, "start": ["seed", sd], "tol": 1e-10, "structured": sk})
     for n in range(1, 5):
-        for st in ("nonherm", "nilpotent", "zero", "rank1", "skew"):
+        for st in ("nonherm", "nilpotent", "zero", "rank1", "skew", "imag_identity", "skew_diag"):
             for sd in range(4):
                 out.append({"key": f"arb/{st}/n={n}/seed={sd}", "grp": "arb", "st": st, "n": n, "seed": sd})
     for n in range(1, 5):
@@ -117,6 +121,34 @@ def cases(tier, seed):
                 for fmt in ("complex", "quaternion"):
                     out.append({"key": f"nh/{st}/n={n}/seed={sd}/{fmt}", "grp": "nh", "st": st, "n": n, "seed": sd, "fmt": fmt})
     return out
+
+
+def structured_herm(sk, n):
+    """Hermitian integer-like matrices with a structured non-dominant eigenvector; returns (A, lam sorted by |.| desc, dominant eigenvector)."""
+    one = np.ones((n, 1)) / np.sqrt(n)
+    alt = np.array([[(-1.0) ** i] for i in range(n)]) / np.sqrt(n)
+    if sk == "ones_nondominant":
+        if n % 2 == 0:
+            M = 1.0 * one @ one.T + 3.0 * alt @ alt.T
+        else:
+            e = np.zeros((n, 1)); e[0, 0] = 1.0; e[1, 0] = -1.0; e /= np.sqrt(2)
+            M = 1.0 * one @ one.T + 3.0 * e @ e.T
+    elif sk == "ek_nondominant":
+        M = np.diag([1.0] + [0.5] * (n - 2) + [-3.0])
+    elif sk == "path_laplacian":
+        M = np.zeros((n, n))
+        for i in range(n):
+            M[i, i] = 2.0 if 0 < i < n - 1 else 1.0
+            if i + 1 < n:
+                M[i, i + 1] = M[i + 1, i] = -1.0
+    else:  # circulant with first row (2, -1, 0, ..., 0, -1)
+        M = 2.0 * np.eye(n)
+        for i in range(n):
+            M[i, (i + 1) % n] += -1.0
+            M[i, (i - 1) % n] += -1.0
+    A = np.zeros((n, n, 4))
+    A[..., 0] = M
+    return A
 
 
 def herm_matrix(case, seed):
@@ -149,6 +181,19 @@ def unit_checks(v, est, A, tags, fails, label):
     return vf
 
 
+def _nogap(lib, case, A, lam):
+    """spectra without a gap: unit norm and the bound by the spectral norm still hold."""
+    fails = []
+    np.random.seed(case["start"][1])
+    ok, res = call(lib.utils.power_iteration, G.to_quat(A), 50, 1e-10, True)
+    tags = {"grp": "herm", "n": case["n"], "structured": case.get("structured")}
+    if not ok:
+        fails.append(fail("raised", f"{res}", **tags))
+    else:
+        unit_checks(res[0], float(res[1]), A, tags, fails, "no-gap structured input")
+    return {"key": case["key"], "fails": fails, "nontrivial": True, "digest": digest(A, case["start"]), "path": "structured:nogap", "obs": [len(fails)]}
+
+
 def run_case(case, seed):
     lib = load()
     u = lib.utils
@@ -157,7 +202,19 @@ def run_case(case, seed):
     states = []
     transitions = 0
     if grp in ("herm", "q8"):
-        A, V = herm_matrix(case, seed)
+        if case.get("structured"):
+            A = structured_herm(case["structured"], case["n"])
+            w_, Vr = np.linalg.eigh(A[..., 0])
+            order = np.argsort(-np.abs(w_))
+            lam = [float(w_[t]) for t in order]
+            if len(lam) > 1 and abs(abs(lam[0]) - abs(lam[1])) < 1e-9 * abs(lam[0]):
+                # no gap: only the unconditional clauses apply
+                return _nogap(lib, case, A, lam)
+            V = np.zeros((case["n"], case["n"], 4))
+            V[..., 0] = Vr[:, order]
+            case = dict(case, lam=lam, ratio=abs(lam[1] / lam[0]) if len(lam) > 1 else 0.0)
+        else:
+            A, V = herm_matrix(case, seed)
         n = case["n"]
         Aq = G.to_quat(A)
         lam = case["lam"]
@@ -237,6 +294,14 @@ def run_case(case, seed):
             A = O.qmatmul(fill.quat(n, 1, bits=2, lo=-4, hi=4), fill.quat(1, n, bits=2, lo=-4, hi=4))
         elif st == "skew":
             A = A - O.qH(A)
+        elif st == "imag_identity":
+            A = np.zeros((n, n, 4))
+            for i in range(n):
+                A[i, i, 1] = 1.0 + (case["seed"] % 2)
+        elif st == "skew_diag":
+            A = np.zeros((n, n, 4))
+            for i in range(n):
+                A[i, i, 1 + i % 3] = (-1.0) ** i
         tags = {"grp": "arb", "st": st, "n": n}
         Aq = G.to_quat(A)
         before = Aq.tobytes()
